@@ -67,6 +67,56 @@ def wide_programs():
     return out
 
 
+def enumeration_programs():
+    """Objects whose enumeration order could only vary with the host's hash seed if some set / dict-of-hashes order leaked:
+    2..7 data properties with dissimilar names, then an accessor (4 ways of defining it), then nothing / one more property / a
+    deletion and re-insertion; observed through every enumeration built-in."""
+    names = ["zeta", "alpha", "k3", "mid", "b2", "yy", "Q", "k1"]
+    observe = ("var ks = []; for (var k in o) { ks.push(k) } [ks.join(), Object.keys(o).join(), Object.values(o).length, "
+               "Object.entries(o).map(function (e) { return e[0] }).join(), JSON.stringify(o), Object.keys(Object.assign({}, o)).join(), "
+               "Object.keys(Object.create(o)).length].join('|')")
+    acc = {
+        "literal-getter": None,
+        "defineProperty-get": "Object.defineProperty(o, 'acc', {get: function () { return 1 }, enumerable: true, configurable: true});",
+        "defineProperty-set": "Object.defineProperty(o, 'acc', {set: function (v) { }, enumerable: true, configurable: true});",
+        "defineProperty-data-then-get": "o.acc = 0; Object.defineProperty(o, 'acc', {get: function () { return 2 }, enumerable: true, configurable: true});",
+        "redefine-existing-as-getter": "Object.defineProperty(o, '%s', {get: function () { return 3 }, enumerable: true, configurable: true});" % names[1],
+    }
+    after = {"nothing": "", "one-more": "o.late = 9;", "delete-reinsert": "delete o.%s; o.%s = 'again';" % (names[0], names[0]),
+             "delete-accessor": "delete o.acc; o.acc2 = 1;"}
+    out = []
+    for k in range(2, 8):
+        for an, adef in acc.items():
+            for pn, post in after.items():
+                if adef is None:
+                    lit = ", ".join("%s: %d" % (n, i) for i, n in enumerate(names[:k])) + ", get acc() { return 1 }"
+                    src = "var o = {%s}; %s %s" % (lit, post, observe)
+                else:
+                    src = "var o = {}; %s %s %s %s" % (" ".join("o.%s = %d;" % (n, i) for i, n in enumerate(names[:k])), adef, post, observe)
+                out.append(src)
+    # other containers whose key order is observable
+    out.append("var a = [3, 1, 2]; a.zeta = 1; a.alpha = 2; a.mid = 3; var ks = []; for (var k in a) { ks.push(k) } ks.join() + '|' + Object.keys(a).join()")
+    out.append("function f() { } f.zeta = 1; f.alpha = 2; f.mid = 3; f.b2 = 4; Object.keys(f).join()")
+    out.append("var e = new Error('m'); e.zeta = 1; e.alpha = 2; e.mid = 3; Object.keys(e).join() + '|' + JSON.stringify(e)")
+    out.append("var p = {zeta: 1, alpha: 2}; var c = Object.create(p); c.mid = 3; c.b2 = 4; c.yy = 5; var ks = []; for (var k in c) { ks.push(k) } ks.join()")
+    out.append("JSON.stringify(JSON.parse('{\"zeta\":1,\"alpha\":{\"mid\":2,\"b2\":3,\"yy\":[{\"Q\":1,\"k1\":2}]},\"k3\":4}'))")
+    out.append("Object.keys(Object.assign({zeta: 1}, {alpha: 2, mid: 3}, {b2: 4, zeta: 5, yy: 6})).join()")
+    out.append("var o = {}; 'the quick brown fox jumps over lazy dogs again and more'.split(' ').forEach(function (w, i) { o[w] = i }); "
+               "delete o.fox; delete o.the; o.fox = 1; Object.keys(o).join() + JSON.stringify(Object.entries(o).slice(0, 4))")
+    out.append("var seen = []; JSON.stringify({zeta: 1, alpha: {mid: 2, b2: 3}, yy: [4]}, function (k, v) { seen.push(k); return v }); seen.join()")
+    out.append("var seen = []; JSON.parse('{\"zeta\":1,\"alpha\":{\"mid\":2,\"b2\":3},\"yy\":[4]}', function (k, v) { seen.push(k); return v }); seen.join()")
+    out.append("JSON.stringify({zeta: 1, alpha: 2, mid: 3, b2: 4}, ['mid', 'zeta', 'nope', 'b2'])")
+    return out
+
+
+def _selfcheck_enumeration():
+    """The enumeration programs must run to a value on this tree (a program that throws observes nothing)."""
+    from mc.props.common import engine
+    e = engine()
+    bad = [p for p in enumeration_programs() if not e.run_program(p, tl=100).startswith("|R")]
+    return bad
+
+
 def corpus_programs():
     from mc.props import c05
     progs = []
@@ -77,7 +127,7 @@ def corpus_programs():
 
 def all_programs():
     seen, out = set(), []
-    for p in wide_programs() + corpus_programs():
+    for p in wide_programs() + enumeration_programs() + corpus_programs():
         if p not in seen:
             seen.add(p)
             out.append(p)
@@ -96,6 +146,11 @@ def _child(seed, job):
         return json.loads(r.stdout)
     finally:
         os.unlink(path)
+
+
+def run_selfcheck(payload):
+    bad = _selfcheck_enumeration()
+    return ("ok" if not bad else "%d enumeration programs do not run to a value, e.g. %s" % (len(bad), bad[0][:200])) + "\x00ok"
 
 
 def run_seeds(payload):
@@ -159,7 +214,7 @@ def _warm_cases():
 
 def _sp(name, runner, fn, rule, bound):
     return Space(name, "mc.props.c15:" + runner, fn, oracle="inline", rule=rule, bound=bound, batch=1, watchdog=900,
-                 nontrivial=lambda cid, p, exp: True)
+                 nontrivial=lambda cid, p, exp: True, nondeterminism_is_violation=True)
 
 
 def spaces(tier, seed, all_strata=False):
@@ -169,9 +224,11 @@ def spaces(tier, seed, all_strata=False):
             "every program of the closure corpus (C05 closure family + 93 wide programs with 3-5 parameters, locals, captured and "
             "pass-through variables per level, named function expressions, arguments, catch parameters, for-in key order) evaluated "
             "in %d interpreters with PYTHONHASHSEED 0..%d: identical log, value and error class" % (n, n - 1), "%d seeds" % n),
+        _sp("c15_selfcheck", "run_selfcheck", lambda: [("the 130 enumeration programs run to a value (non-vacuity of the key-order observations)", {})],
+            "harness self-check", "1"),
         _sp("c15_orders", "run_orders", lambda: _order_cases(5 if tier == "quick" else 1),
             "all 24 permutations of 4-program batches from a 12-program pool in one process", "24 x C(12,4)"),
-        _sp("c15_warm", "run_warm", _warm_cases, "fresh process vs after 1000 unrelated evaluations, 100 of which fail in 29 different ways (deep joins, cycles, limits, throws through natives, syntax errors, regex errors), with a shifted virtual clock", "4 slices"),
+        _sp("c15_warm", "run_warm", _warm_cases, "fresh process vs after 1000 unrelated evaluations, 100 of which fail in 29 different ways (deep joins, cycles, limits, throws through natives, syntax errors, regex errors), then each failing program 110 times in a row, with a shifted virtual clock", "4 slices"),
     ]
     if all_strata and tier != "thorough":
         out.append(_sp("c15_seeds_64", "run_seeds", lambda: _seed_cases(64), "64 seeds", "64 seeds"))
